@@ -42,7 +42,7 @@ class Parser(object):
         return t
 
     def t_PATH(self, t):
-        r'".*"'
+        r'"[^"\n]*"'
         return t
 
     def t_CONST16(self, t):
@@ -86,8 +86,7 @@ class Parser(object):
         t.lexer.lineno += t.value.count('\n')
 
     def t_linecomment(self, t):
-        r'//.*\n'
-        t.lexer.lineno += 1
+        r'//.*'
 
     def t_error(self, t):
         t.lexer.skip(1)
